@@ -66,7 +66,50 @@ fn masked_projection(a: &BinArchive, endian: &str) -> Value {
 const SJIS_CHARS: &[char] = &[
     'a', 'Z', '0', '_', '.', ' ', '-', 'ｱ', 'ﾝ', 'あ', 'ん', 'ソ', '表', '能', '十', 'Ａ', '　', '漢', '字', '①',
 ];
+/// A name whose Shift-JIS form is `target` bytes long: an ODD number of single-byte characters, then a run of
+/// double-byte characters (so one of them straddles every even byte offset such as 64 or 128), then at most
+/// one single-byte character to reach the length.
+fn straddling_name(rng: &mut Rng, target: usize) -> String {
+    let singles = ['a', 'Z', '0', '_'];
+    let doubles = ['あ', 'ん', 'ソ', '表', '漢', '十'];
+    let mut s = String::new();
+    let lead = if target >= 3 && rng.chance(1, 3) { 3 } else { 1 };
+    for _ in 0..lead.min(target) {
+        s.push(*rng.pick(&singles));
+    }
+    let mut len = lead.min(target);
+    while len + 2 <= target {
+        s.push(*rng.pick(&doubles));
+        len += 2;
+    }
+    if len < target {
+        s.push(*rng.pick(&singles));
+    }
+    debug_assert!(sjis_lossless(&s));
+    s
+}
+const STRADDLE_LENGTHS: &[usize] = &[63, 64, 65, 127, 128, 129];
+
+/// A parse result must depend on the image alone.  Before every parse that is compared, the same parser is
+/// run on damaged copies of the same image on the same thread (cut inside the last string, inside the text
+/// section / name table, inside the tables); whatever these attempts return is ignored.
+fn prime_with_damaged_copies(bytes: &[u8], extra_cuts: &[usize], parser: &dyn Fn(&[u8])) {
+    let len = bytes.len();
+    let mut cuts = vec![len.saturating_sub(1), len.saturating_sub(2), len.saturating_sub(3), len.saturating_sub(5),
+                        len / 2 + 17, len / 3, 2 * len / 3 + 5];
+    cuts.extend_from_slice(extra_cuts);
+    for cut in cuts {
+        if cut < len {
+            let _ = catch(|| parser(&bytes[..cut]));
+        }
+    }
+}
+
 fn random_name(rng: &mut Rng, max_chars: usize, allow_empty: bool) -> String {
+    if rng.chance(1, 12) {
+        let target = *rng.pick(STRADDLE_LENGTHS);
+        return straddling_name(rng, target);
+    }
     loop {
         let n = if allow_empty && rng.chance(1, 10) { 0 } else { rng.range(1, max_chars) };
         let s: String = (0..n).map(|_| *rng.pick(SJIS_CHARS)).collect();
@@ -100,6 +143,12 @@ fn pack_map_to_value(m: &IndexMap<String, Vec<u8>>) -> Value {
 }
 /// parse -> {"ok":true,"v":[[name,body]..]} | {"ok":false,"v":[],"err":..} | {"panic":..}
 fn pack_parse(bytes: &[u8]) -> Value {
+    // damaged copies: cuts inside the first names of the name table (it starts right after the entry table)
+    let table_end = if bytes.len() >= 6 { 8 + 16 * (((bytes[4] as usize) << 8) | bytes[5] as usize) } else { 0 };
+    let cuts: Vec<usize> = [1usize, 2, 3, 5, 8, 13, 21, 70].iter().map(|k| table_end + k).collect();
+    prime_with_damaged_copies(bytes, &cuts, &|b| {
+        let _ = mila::fe9_arc::parse(b);
+    });
     match catch(|| mila::fe9_arc::parse(bytes)) {
         Ok(Ok(m)) => json!({"ok": true, "v": pack_map_to_value(&m)}),
         Ok(Err(e)) => json!({"ok": false, "v": [], "err": e.to_string()}),
@@ -255,6 +304,9 @@ fn pack_record(out_path: &str, runs: usize, max_files: usize, flags: &[&str]) {
 // ------------------------------------------------------------------------------------------------ C16 arc
 /// arc::from_bytes -> {"ok":true,"files":[[name,bytes]..] sorted by name} | {"ok":false,"files":[],"err":..} | {"panic":..}
 fn arc_extract(bytes: &[u8]) -> Value {
+    prime_with_damaged_copies(bytes, &[], &|b| {
+        let _ = mila::arc::from_bytes(b);
+    });
     match catch(|| mila::arc::from_bytes(bytes)) {
         Ok(Ok(m)) => {
             let mut files: Vec<(Vec<u8>, Value)> = m
@@ -286,6 +338,9 @@ fn arc_matches(got: &Value, expect: &Value) -> bool {
 }
 /// archive content the container layer shows for an image (None if it does not even parse)
 fn container_content(image: &[u8]) -> Option<Value> {
+    prime_with_damaged_copies(image, &[], &|b| {
+        let _ = BinArchive::from_bytes(b, Endian::Little);
+    });
     match catch(|| BinArchive::from_bytes(image, Endian::Little)) {
         Ok(Ok(a)) => Some(masked_projection(&a, "le")),
         _ => None,
@@ -378,6 +433,21 @@ fn arc_random_content(rng: &mut Rng, max_files: usize) -> (String, Value) {
             if rng.chance(1, 8) { vec![0u8; len] } else { rng.bytes(len) }
         })
         .collect();
+    arc_layout(rng, &names, &bodies, true)
+}
+
+/// names/bodies by rule for the large-count images (the same rule is BigName / BigBody in spec/Arc3ds.tla)
+fn arc_rule_name(i: usize) -> String {
+    if i % 1000 == 7 { format!("あ{}", i) } else { format!("f{}", i) }
+}
+fn arc_rule_body(i: usize) -> Vec<u8> {
+    if i % 251 == 0 { vec![(i % 256) as u8, ((i / 256) % 256) as u8] } else { Vec::new() }
+}
+
+/// Random placement of the given files in an arc (the one builder behind every harness-made arc: random small
+/// ones, whose content TLC validates in full, and the large-count ones, which TLC can only sample).
+fn arc_layout(rng: &mut Rng, names: &[String], bodies: &[Vec<u8>], allow_errors: bool) -> (String, Value) {
+    let n = names.len();
     let padded = rng.chance(1, 2);
     let base = if padded { 0x60 } else { 0 };
     #[derive(Clone)]
@@ -436,7 +506,7 @@ fn arc_random_content(rng: &mut Rng, max_files: usize) -> (String, Value) {
     }
     let end = pos;
     // planted defect
-    let kind = if rng.chance(1, 5) {
+    let kind = if allow_errors && rng.chance(1, 5) {
         *rng.pick(if n == 0 { &["nocount", "noinfo"][..] } else { &["nocount", "noinfo", "noname", "end", "start", "words", "words", "wrapsum"][..] })
     } else {
         "ok"
@@ -542,15 +612,59 @@ fn arc_random_content(rng: &mut Rng, max_files: usize) -> (String, Value) {
     (kind.to_string(), content)
 }
 
-fn arc_record(out_path: &str, runs: usize, max_files: usize) {
+fn arc_record(out_path: &str, runs: usize, max_files: usize, counts: &[usize]) {
     let mut rng = Rng::new(seed_from_env() ^ if cfg!(debug_assertions) { 0x5EED } else { 0 });
     let mut out = NdWriter::create(out_path);
     // the repository's own sample: content as parsed by BinArchive, result of arc::from_bytes on the file
     if let Ok(file) = std::fs::read(format!("{}/resources/test/ArcTest.arc", mila_dir())) {
+        prime_with_damaged_copies(&file, &[], &|b| {
+            let _ = BinArchive::from_bytes(b, Endian::Little);
+        });
         match catch(|| BinArchive::from_bytes(&file, Endian::Little)) {
             Ok(Ok(a)) => out.put(&json!({"kind": "ok", "src": "ArcTest.arc", "content": masked_projection(&a, "le"), "result": arc_extract(&file)})),
             other => usage(&format!("cannot read ArcTest.arc as a bin archive: {:?}", other.map(|r| r.map(|_| ()).map_err(|e| e.to_string())))),
         }
+    }
+    // record counts around the powers of two where a narrower count type would wrap
+    for n in counts {
+        let names: Vec<String> = (0..*n).map(arc_rule_name).collect();
+        let bodies: Vec<Vec<u8>> = (0..*n).map(arc_rule_body).collect();
+        let (_, content) = arc_layout(&mut rng, &names, &bodies, false);
+        let img = match build_image(&content) {
+            Ok(img) if container_content(&img).as_ref() == Some(&content) => img,
+            other => {
+                out.put(&json!({"kind": "unbuildable", "src": "rule", "content": {"n": n}, "result": {"unbuildable": format!("{:?}", other.map(|b| b.len()))}}));
+                continue;
+            }
+        };
+        if *n <= 1000 {
+            // small enough for TLC to validate content and extraction in full
+            out.put(&json!({"kind": "ok", "src": "rule", "content": content, "result": arc_extract(&img)}));
+        }
+        // summary: number of entries and a sample of them, looked up by the rule's name
+        prime_with_damaged_copies(&img, &[], &|b| {
+            let _ = mila::arc::from_bytes(b);
+        });
+        let result = match catch(|| mila::arc::from_bytes(&img)) {
+            Ok(Ok(m)) => {
+                let mut idx: Vec<usize> = (0..*n).filter(|i| *i == 0 || i + 1 == *n || i % 4099 == 0 || [254usize, 255, 256, 257, 65534, 65535, 65536].contains(i)).collect();
+                idx.dedup();
+                let sample: Vec<Value> = idx
+                    .iter()
+                    .map(|i| {
+                        let name = arc_rule_name(*i);
+                        match m.get(&name) {
+                            Some(b) => json!({"i": i, "name": name_json(&name), "found": true, "bytes": bytes_to_json(b)}),
+                            None => json!({"i": i, "name": name_json(&name), "found": false, "bytes": []}),
+                        }
+                    })
+                    .collect();
+                json!({"ok": true, "count": m.len(), "sample": sample})
+            }
+            Ok(Err(e)) => json!({"ok": false, "count": 0, "sample": [], "err": format!("{:?}", e)}),
+            Err(p) => json!({ "panic": p }),
+        };
+        out.put(&json!({"kind": "big", "src": "rule", "desc": {"n": n, "image_bytes": img.len()}, "result": result}));
     }
     for _ in 0..runs {
         let (kind, content) = arc_random_content(&mut rng, max_files);
@@ -627,6 +741,11 @@ fn round_trip<T>(
             return r;
         }
     }
+    prime_with_damaged_copies(&r.bytes, &[], &|b| {
+        if let Ok(a) = BinArchive::from_bytes(b, Endian::Little) {
+            let _ = parse(&a);
+        }
+    });
     let archive = match catch(|| BinArchive::from_bytes(&r.bytes, Endian::Little)) {
         Ok(Ok(a)) => a,
         Ok(Err(e)) => {
@@ -782,6 +901,9 @@ fn aset_record(out_path: &str, runs: usize, max_sets: usize) {
     let mut out = NdWriter::create(out_path);
     // the repository's sample file: value = what mila reads from it
     if let Ok(file) = std::fs::read(format!("{}/resources/test/FE14Aset_Test.bin", mila_dir())) {
+        prime_with_damaged_copies(&file, &[], &|b| {
+            let _ = BinArchive::from_bytes(b, Endian::Little).map(|ar| ASetFile::from_archive(&ar).map(|_| ()));
+        });
         let parsed = catch(|| BinArchive::from_bytes(&file, Endian::Little).map_err(|e| e.to_string()).and_then(|ar| ASetFile::from_archive(&ar).map_err(|e| e.to_string())));
         match parsed {
             Ok(Ok(a)) => {
@@ -974,6 +1096,9 @@ fn asset_record(out_path: &str, runs: usize, max_specs: usize) {
     let mut rng = Rng::new(seed_from_env());
     let mut out = NdWriter::create(out_path);
     if let Ok(file) = std::fs::read(format!("{}/resources/test/AssetBinary_Test.bin", mila_dir())) {
+        prime_with_damaged_copies(&file, &[], &|b| {
+            let _ = BinArchive::from_bytes(b, Endian::Little).map(|ar| AssetBinary::from_archive(&ar).map(|_| ()));
+        });
         let parsed = catch(|| BinArchive::from_bytes(&file, Endian::Little).map_err(|e| e.to_string()).and_then(|ar| AssetBinary::from_archive(&ar).map_err(|e| e.to_string())));
         match parsed {
             Ok(Ok(a)) => {
@@ -1014,14 +1139,17 @@ fn main() {
             pack_record(out, runs.parse().unwrap(), max_files.parse().unwrap(), flags)
         }
         ["arc-replay", cases, out] => arc_replay(cases, out),
-        ["arc-record", out, runs, max_files] => arc_record(out, runs.parse().unwrap(), max_files.parse().unwrap()),
+        ["arc-record", out, runs, max_files, counts @ ..] => {
+            let counts: Vec<usize> = counts.iter().map(|c| c.parse().unwrap_or_else(|_| usage("arc-record: counts are numbers"))).collect();
+            arc_record(out, runs.parse().unwrap(), max_files.parse().unwrap(), &counts)
+        }
         ["aset-replay", cases, out] => aset_replay(cases, out),
         ["aset-record", out, runs, max_sets] => aset_record(out, runs.parse().unwrap(), max_sets.parse().unwrap()),
         ["asset-replay", cases, out] => asset_replay(cases, out),
         ["asset-record", out, runs, max_specs] => asset_record(out, runs.parse().unwrap(), max_specs.parse().unwrap()),
         _ => usage(
             "mvh_cont <pack|arc|aset|asset>-replay <cases> <out> | pack-record <out> <runs> <max_files> [bounds] [big] | \
-             arc-record <out> <runs> <max_files> | aset-record <out> <runs> <max_sets> | asset-record <out> <runs> <max_specs>",
+             arc-record <out> <runs> <max_files> [record counts...] | aset-record <out> <runs> <max_sets> | asset-record <out> <runs> <max_specs>",
         ),
     }
 }
